@@ -5,7 +5,7 @@
       (GenScores.v) is the hand-written model of ScoreModel.v that every other theorem uses;
    2. histories on ONE reused StripedScores buffer: whatever sequence of score_into /
       score_rows_into (any pipeline, any motif, any sequence, any alphabet, any row range),
-      resize, clone and Default calls the buffer has been through, and whatever it held before,
+      resize, clone, Default and matrix_mut().fill(v) calls the buffer has been through, and whatever it held before,
       a scoring call leaves in it exactly what the generic pipeline writes into a fresh buffer;
       after a full scan its logical content (len, is_empty, unstripe) is that of the last
       call: L - M + 1 values, the defined scores of positions 0 .. L - M.
@@ -126,7 +126,7 @@ Example C01_scores_history_readme :
   let nopad : nat -> list f32 := fun _ => [F32.nan; F32.nan; F32.nan] in
   let c be := mkCall be 5 readme_pssm nopad q in
   let short := mkCall BAvx2 5 readme_pssm nopad (stripe_of 32 4 [0; 1; 2] 14) in
-  let h := [HScoreInto (c BGeneric); HResize 3 7; HRowsInto (c BSse2) 1 2; HDefault;
+  let h := [HScoreInto (c BGeneric); HResize 3 7; HRowsInto (c BSse2) 1 2; HFill F32.nan; HDefault;
             HScoreInto short; HClone] in
   Forall (hop_ok 32) h /\ call_on 32 (c (BDispatch ArmAvx2)) readme_seq /\
   (exists mid, f_hrun 32 h sc_empty = Ok mid /\ sc_is_empty mid = true) /\
